@@ -27,7 +27,7 @@ out = ["# Seeded defects (written by fresh sub-agents from the property text onl
        "defaults and optionals, error paths and partial state); round 6 = k, l (symmetric / self-consistent changes, coincidences of two",
        "values, call patterns such as idempotence and aliasing, a field forgotten on one path, first / last / only element); round 7 = m (one",
        "change per property, asked to be as hard to expose as possible: rare-but-legal encodings, trait-provided functionality, doc-comment",
-       "promises, leaks from neighbouring features, last iterations with trailing separators); round 8 = n (twelve properties: state shared between calls or clones, the second of two near-identical paths, narrowing / sign conversions, order of equals, Some(empty) vs None on one path, relations between two functions). The column 'before' is the outcome with the harness as it stood when that round's seeds were written, i.e. the",
+       "promises, leaks from neighbouring features, last iterations with trailing separators); round 8 = n (all twenty properties in two batches: state shared between calls or clones, the second of two near-identical paths, narrowing / sign conversions, order of equals, Some(empty) vs None on one path, relations between two functions). The column 'before' is the outcome with the harness as it stood when that round's seeds were written, i.e. the",
        "independent number; 'caught by' is the outcome with the current harness (after the improvements the misses led to: DESIGN.md §11.5, §11.7, §11.8).", "",
        "| seed | confirmed | caught by (quick tier, current harness) | before | first failing sub-check / reason |", "|---|---|---|---|---|"]
 caught = 0
@@ -38,6 +38,8 @@ for name, m, notes in rows:
     reason = ""
     for c in cb[:1]:
         reason = m["checks"][c]["reason"].replace("|", "\\|")[:220]
+    if not cb and m.get("disposition"):
+        reason = m["disposition"].replace("|", "\\|")[:260]
     before = ""
     if "checks_before" in m:
         before = ", ".join(m.get("caught_by_before", [])) or "missed"
